@@ -133,6 +133,7 @@ type YAMLStyle struct {
 	FlowValues   bool
 	JSON         bool
 	ZeroPad      bool // write numerals with leading zeros ("010/03", bpm 0120, degree 012): still decimal
+	Anchors      bool // repeated texts, symbols and keys as aliases of their first occurrence; one metadata pair through a merge key
 }
 
 // zp pads a decimal numeral with leading zeros (deterministically, by its own digits).
@@ -159,6 +160,19 @@ func (p Piece) YAML(st YAMLStyle) []byte {
 		return p.jsonDoc()
 	}
 	var b strings.Builder
+	// Anchors: a text that occurred before is written as an alias of its first occurrence
+	anchors := map[string]string{}
+	scalar := func(v string) string {
+		if !st.Anchors || v == "" {
+			return jstr(v)
+		}
+		if a, ok := anchors[v]; ok {
+			return "*" + a
+		}
+		a := fmt.Sprintf("a%d", len(anchors)+1)
+		anchors[v] = a
+		return "&" + a + " " + jstr(v)
+	}
 	for _, in := range p.Inst {
 		first := true
 		item := func(s string) {
@@ -178,7 +192,7 @@ func (p Piece) YAML(st YAMLStyle) []byte {
 			} else {
 				b.WriteString("    degree: " + jstr(dn) + "\n")
 			}
-			b.WriteString("    name: " + jstr(c.Symbol) + "\n")
+			b.WriteString("    name: " + scalar(c.Symbol) + "\n")
 			if c.Bass != nil {
 				bn := YAMLNotation(*c.Bass, c.AltBass)
 				if st.ZeroPad && bn[0] >= '0' && bn[0] <= '9' {
@@ -220,7 +234,7 @@ func (p Piece) YAML(st YAMLStyle) []byte {
 			item("meter: " + jstr(Frac{in.Meter.Num, in.Meter.Den}.meterText(st.ZeroPad)))
 		}
 		if in.Key != "" {
-			item("key: " + jstr(in.Key))
+			item("key: " + scalar(in.Key))
 		}
 		if in.Meta != nil {
 			keys := make([]string, 0, len(in.Meta))
@@ -232,8 +246,13 @@ func (p Piece) YAML(st YAMLStyle) []byte {
 				item("meta: {}")
 			} else {
 				item("meta:")
+				if st.Anchors && len(keys) >= 2 {
+					// the first pair arrives through a merge key
+					b.WriteString("    <<: {" + jstr(keys[0]) + ": " + scalar(in.Meta[keys[0]]) + "}\n")
+					keys = keys[1:]
+				}
 				for _, k := range keys {
-					b.WriteString("    " + jstr(k) + ": " + jstr(in.Meta[k]) + "\n")
+					b.WriteString("    " + jstr(k) + ": " + scalar(in.Meta[k]) + "\n")
 				}
 			}
 		}
@@ -939,6 +958,27 @@ func RandPiece(r *rand.Rand, o GenOpts) Piece {
 							break
 						}
 					}
+				}
+			}
+			// metadata entries that are spelled like settings: in an instances document only the fields of an
+			// instance are settings, the metadata map is free text (chord text is different: there {key=G} is the setting)
+			if !o.TextSafe && o.TextProb > 0 && r.Intn(12) == 0 {
+				if in.Meta == nil {
+					in.Meta = map[string]string{}
+				}
+				switch r.Intn(6) {
+				case 0:
+					in.Meta["key"] = RandKey(r)
+				case 1:
+					in.Meta["bpm"] = "77"
+				case 2:
+					in.Meta[[]string{"mtr", "meter"}[r.Intn(2)]] = "3/8"
+				case 3:
+					in.Meta[[]string{"vel", "velocity"}[r.Intn(2)]] = "ff"
+				case 4:
+					in.Meta["key"] = "H"
+				default:
+					in.Meta["values"] = "0/0"
 				}
 			}
 		}
